@@ -477,9 +477,9 @@ static void stress_free(Json& js, vh::Rng& rng, int T, int ops) {
         case 4: addr(xcorr(rin(n, 0), rin(n + 2, 1))); break;
         case 5: { FftFilter f(rin(std::max(2, n / 3), 2)); addr(f.process(rin(5 * n, 3))); break; }
         case 6: addr(welch(rin(40 * n, 0), window::hann(32), 16, 32).pxx); break;
-        case 7: addr(resample(rin(3 * n, 0), 3, 2)); break;
+        case 7: addr(resample(rin(3 * n, 0), 3, 2, 6 + n % 5, 3.0 + (n % 7))); break;
         case 8: { dsplib::rng(n); addr(randn(n)); addr(dsplib::rand(3)); break; }
-        case 9: addr(window::kaiser(n, 7.0)); addr(window::hamming(n)); break;
+        case 9: addr(window::kaiser(n, 1.0 + (n % 13))); addr(window::hamming(n)); addr(window::gauss(n, 1.5 + (n % 5))); addr(window::tukey(n, 0.1 * (n % 9))); break;   // parameters differ between concurrent jobs
         case 10: addc(hilbert(rin(n, 0))); break;
         default: addc(czt(cin(n, 0), n + 1, expj(-2 * pi / (n + 2))));
         }
